@@ -3,6 +3,11 @@
    and report the cases where they differ. *)
 let () =
   let mode = Sys.argv.(1) and file = Sys.argv.(2) in
+  if mode = "session" then begin
+    let (n, bad) = Run_session.run_file file in
+    Printf.printf "SUMMARY cases=%d mismatches=%d\n" n bad;
+    exit (if bad = 0 then 0 else 3)
+  end;
   if mode = "timed" then begin
     let (n, bad) = Run_timed.run_file file in
     Printf.printf "SUMMARY cases=%d mismatches=%d\n" n bad;
